@@ -183,15 +183,31 @@ def _dump_gen():
                 for addr in (0, 0x401230):
                     for opt in ('-x', '-p'):
                         yield [ci, cls, le, addr, opt]
+    # the dumped section is the target (sh_info) of a relocation section: both programs then print a note that the relocations have not been applied - in
+    # relocatable objects and in linked files alike
+    for ci in (2, 6):
+        for cls in (64, 32):
+            for le in (True, False):
+                for etype in (1, 2, 3):
+                    for opt in ('-x', '-p'):
+                        yield [ci, cls, le, 0x401230 if etype != 1 else 0, opt, etype]
 
 
 def _dump_check(desc):
     from mcx import elfgen as eg
-    ci, cls, le, addr, opt = desc
-    img = eg.Img(cls, le, machine=62 if cls == 64 else 3, etype=2, seed=SEED)
+    ci, cls, le, addr, opt = desc[:5]
+    etype = desc[5] if len(desc) > 5 else None
+    img = eg.Img(cls, le, machine=62 if cls == 64 else 3, etype=etype or 2, seed=SEED)
     img.null()
-    img.add(eg.Sec('.text', 1, data=b'\x90' * 16, flags=6, addr=0x401000, align=16))
-    img.add(eg.Sec('.dumped', 1, data=DUMP_CONTENTS[ci], flags=2 if addr else 0, addr=addr, align=1, file_align=1))
+    img.add(eg.Sec('.text', 1, data=b'\x90' * 16, flags=6, addr=0x401000 if etype != 1 else 0, align=16))
+    dumped = img.add(eg.Sec('.dumped', 1, data=DUMP_CONTENTS[ci], flags=2 if addr else 0, addr=addr, align=1, file_align=1))
+    if etype:
+        f = img.f
+        strs = img.add(eg.Sec('.strtab', 3, data=b'\0sym\0'))
+        symtab = img.add(eg.Sec('.symtab', 2, data=f.sym(0, 0, 0, 0, 0, 0) + f.sym(1, 0x10, 0, 0x10, 0, 1), link=strs.index, info=1, entsize=f.symsize, align=8))
+        rela = cls == 64
+        body = f.rela(addr + 4, f.r_info(1, 1), 4) if rela else f.rel(addr + 4, f.r_info(1, 1))
+        img.add(eg.Sec('.rela.dumped' if rela else '.rel.dumped', 4 if rela else 9, data=body, link=symtab.index, info=dumped.index, entsize=f.relasize if rela else f.relsize, align=8, flags=0x40))
     img.add_shstrtab()
     data = img.encode()
     fails, sts = _compare_all('dump', data, ['.dumped'], [opt + '.dumped'])
